@@ -420,6 +420,15 @@ class Ctx:
             self.cov["discharged"] = 0
             self.broken = ("axiom audit " + prop_module, raw[-3000:])
             return False
+        if self.tier == "thorough":
+            # independent re-check of the compiled module by the toolchain's leanchecker (replays the .olean through the kernel)
+            with BuildLock("lake"):
+                rc_l, out_l = sh(["lake", "env", "leanchecker", prop_module], cwd=LEAN, timeout=1800)
+            self.cov["leanchecker"] = "ok" if rc_l == 0 else out_l[-1500:]
+            if rc_l != 0:
+                self.cov["discharged"] = 0
+                self.broken = ("leanchecker " + prop_module, out_l[-3000:])
+                return False
         self.cov["discharged"] = self.cov["obligations"]
         self.broken = None
         return True
